@@ -46,12 +46,6 @@ Lemma twf_len2 t : twf t ->
 Proof.
   unfold ParserMeasure.twf, twfb. intros H [E|E]; rewrite E in H; vm_compute (_ =? _) in H; cbn [orb andb] in H; lia.
 Qed.
-Lemma twf_float t : twf t -> t_typ t = pk_itemFloat -> exists f, parse_float (t_val t) = Some f.
-Proof.
-  unfold ParserMeasure.twf, twfb. intros H E; rewrite E in H; vm_compute (_ =? _) in H; cbn [orb andb] in H.
-  destruct (parse_float (t_val t)); [eauto|lia].
-Qed.
-
 Lemma p_expect_post b typ p :
   pinv p -> typ <> 0 -> kap p = b ->
   ppost b (fun t p' => mu p = S (mu p') /\ (p_peek p' <= 1)%nat /\ t = cur_tok p' /\ t_typ t = typ /\ twf t)
@@ -254,7 +248,8 @@ Proof.
   { match goal with |- context [match ?r with Some _ => _ | None => _ end] => destruct r end;
       [fin|apply ppost_errorf; auto; unfold kap in *; lia]. }
   destruct (N.eqb_spec (t_typ t) pk_itemFloat) as [Ef|Ef].
-  { destruct (twf_float t Htw Ef) as (f & Eq). rewrite Eq. fin. }
+  { destruct (parse_float (t_val t)); [fin|].
+    destruct (parse_float_round (t_val t)); [fin|apply ppost_errorf; auto; unfold kap in *; lia|apply ppost_errorf; auto; unfold kap in *; lia]. }
   destruct (t_typ t =? pk_itemString).
   { destruct (unquote_string (t_val t)); [fin|apply ppost_errorf; auto; unfold kap in *; lia]. }
   destruct (t_typ t =? pk_itemLeftBracket); [apply parse_list_or_map_ok; auto|].
